@@ -44,7 +44,9 @@ Chg(p, args, targs, chm, cons) ==
                           ELSE Chg(p.subs[1], p.x \o args, AllT(Len(p.x), p.n # 1) \o targs, chm, cons)
     [] p.k \in {"vmap", "repeat"} ->
          LET el(i) == IF p.k = "repeat" THEN args
-                      ELSE [j \in 1..Len(args) |-> IF p.x[j] = 1 THEN Unstack(args[j], i) ELSE args[j]]
+                      ELSE [j \in 1..Len(args) |-> CASE p.x[j] = 1 -> Unstack(args[j], i)
+                                                       [] p.x[j] = 2 -> Vc([r \in 1..Len(args[j].k) |-> args[j].k[r].k[i]])
+                                                       [] OTHER -> args[j]]
          IN  ChgLoop("map", p.subs[1], p.n, 1, [i \in 1..p.n |-> el(i)], targs, chm, cons, C2(FALSE, {}))
     [] p.k = "scan" -> ChgLoop("scan", p.subs[1], p.n, 1, <<args[1], args[2]>>, <<targs[1], targs[2]>>, chm, cons, C2(FALSE, {}))
     [] p.k \in {"accumulate", "reduce"} -> ChgLoop("acc", p.subs[1], p.n, 1, <<args[1], args[2]>>, <<targs[1], targs[2]>>, chm, cons, C2(FALSE, {}))
